@@ -57,6 +57,43 @@ CHECKS = {
         note="Premise L*U = A comes from C03 (partial there). Trusted: Coq kernel, extraction, harness, Zp class.",
         technique="Coq proof (induction over substitution rows, any field) + exact-field differential tie",
         ref="6 C04"),
+    "C05": dict(
+        text="Coq theorems over the model of the integrator templates (policies as parameters, induction over every "
+             "accept/reject history): at every Rosenbrock attempt, first or retry, separate-L/U or in-place, the matrix "
+             "handed to Factor is I/(gamma H) - J(y) (C05_rosenbrock_matrix_every_attempt); every backward-Euler iteration "
+             "is a Newton iteration with matrix I/H - J(y) and residual f(y) - (y - y_n)/H. Tie: the real "
+             "AbstractRosenbrockSolver / BackwardEuler templates driven by scripted recording policies, every "
+             "accept/reject word up to length 4 (6 thorough), custom dyadic tables, exact equality of the complete call "
+             "trace (arguments of every forcing / Jacobian / Factor / Solve / error-norm call, result, counters). "
+             "Implementation oracle: diagonal shift recovered from the factored matrix vs the H recovered from the stage "
+             "formulas. The check found and the repository now fixes (fix: e318cbe) the wrong re-basing after two rejections.",
+        note="Stage formulas are the model's definition, tied by the exact trace comparison rather than proved against a second "
+             "specification. Trusted: Coq kernel, extraction, scripted policies on both sides, harness.",
+        technique="Coq proof (loop invariants over accept/reject histories) + scripted-policy exact trace tie",
+        ref="6 C05"),
+    "C06": dict(
+        text="Coq: the seven counters equal the numbers of operations in the trace for every policy set and history, both "
+             "integrators (C06_rosenbrock_counters_equal_operations, be_ok). The clause 'Converged only if the whole "
+             "interval was integrated' is REFUTED on the faithful model (C06_converged_without_progress_refuted, witness by "
+             "vm_compute) and replayed on the implementation: recorded as known findings. Tie and oracle as C05 with time "
+             "steps down to 2^-60 and continuation remainders; the oracle checks counters against the calls the policies "
+             "saw, 0 <= final_time <= time_step, Converged => interval covered, final_time = sum of accepted steps. A "
+             "backward-Euler overshoot (h_start > time_step) found by the oracle is fixed in the repository (fix: bba10e6).",
+        note="PARTIAL: time bounds and termination are checked by the oracle and the tie, not yet theorems. Known findings in "
+             "KNOWN_FINDINGS.txt (absolute round_off in the loop guard).",
+        technique="Coq proof (counter invariants; refutation witness by vm_compute) + scripted-policy tie + oracle",
+        ref="6 C06"),
+    "C07": dict(
+        text="Coq: an attempt is accepted iff error < 1 or H < h_min, never on a NaN/Inf norm, for every policy set and "
+             "history (C07_accept_iff...). Controller formulas (first H, growth clamp, no growth after rejection, fixed cut "
+             "after repeated rejections, max-steps guard, BE reductions/doubling) are the model's definitions, compared "
+             "exactly with the real templates over every accept/reject word; NormalizedError and IsConverged are modelled "
+             "slot by slot for both layouts and compared with the real functions on every shape incl. partial groups and "
+             "per-species tolerances. Oracle: step-size clauses on the H sequence recovered from the implementation's own calls.",
+        note="PARTIAL proof: bounds on H and the RMS form of the error norm are validated (tie + oracle), not yet theorems. "
+             "Known finding: h_max <= 10*round_off is overridden by the DELTA_MIN guard.",
+        technique="Coq proof (accept rule invariant) + scripted-policy exact tie + oracle",
+        ref="6 C07"),
     "C08": dict(
         text="Coq theorems by vm_compute over exact rationals on the five coefficient tables regenerated from /repo's "
              "headers on every run (translator): conversion from implementation form (a_, c_, m_, e_) back to "
